@@ -93,7 +93,7 @@ class H3Ops:
                 return None
             else:
                 # get the kth ring
-                ring = h3.k_ring(search_geoid, current_k)
+                ring = sorted(h3.k_ring(search_geoid, current_k))
 
                 # get all entities in this ring
                 found = (
